@@ -57,4 +57,9 @@ def to_int(val: Any) -> int:
             f"value has {len(val)} digits",
             token=None,
         )
-    return int(val)
+    try:
+        return int(val)
+    except OverflowError as err:
+        # int(float("inf")): report it like int(float("nan")) and int("x"), as
+        # the ValueError every caller of to_int() already handles.
+        raise ValueError(str(err)) from err
